@@ -79,7 +79,8 @@ add(Contract(
     ensures=[
         "len(self.fields_stack) == old(len(self.fields_stack)) + 1",
         "self.fields_stack[len(self.fields_stack) - 1] == (offset, field_name, packet_class_name)",
-        "forall(0, old(len(self.fields_stack)), lambda i: self.fields_stack[i] == old(self.fields_stack[i]))",
+        # the older entries are the very same objects (identity, not just ==)
+        "forall(0, old(len(self.fields_stack)), lambda i: same(self.fields_stack[i], old(self.fields_stack[i])))",
         "StackWF(self)",
     ],
     modifies=['self.fields_stack[*]']))
